@@ -46,7 +46,7 @@ func init() {
 			}
 			s := st.Session()
 			s.Shuffle = c.Shuffle
-			solo[i], soloErr[i] = Run(context.Background(), fresh, s, nil, a.Query, a.Start, a.End, a.Step)
+			solo[i], soloErr[i] = Run(context.Background(), fresh, s, QueryOpts(a.QLookback), a.Query, a.Start, a.End, a.Step)
 		}
 		type span struct{ a, b time.Time }
 		res := make([]*oracle.Res, len(qs))
@@ -85,7 +85,7 @@ func init() {
 					}
 					<-start
 					spans[i].a = time.Now()
-					res[i], errs[i] = Run(context.Background(), eng, s, nil, a.Query, a.Start, a.End, a.Step)
+					res[i], errs[i] = Run(context.Background(), eng, s, QueryOpts(a.QLookback), a.Query, a.Start, a.End, a.Step)
 					spans[i].b = time.Now()
 				}(i, a)
 			}
@@ -104,7 +104,7 @@ func init() {
 			}
 			if d := oracle.Equal(res[i], solo[i], tol); d != "" {
 				_, expr, _ := ExprType(a.Query)
-				kc := &core.Case{Query: a.Query, Series: c.Series, Start: a.Start, End: a.End, Step: a.Step, Lookback: c.Lookback, Shuffle: c.Shuffle}
+				kc := &core.Case{Query: a.Query, Series: c.Series, Start: a.Start, End: a.End, Step: a.Step, Lookback: c.Lookback, QLookback: a.QLookback, Shuffle: c.Shuffle}
 				if expr != nil && TopkAmbiguous(kc, expr, st) {
 					continue
 				}
